@@ -227,18 +227,24 @@ def takeDigits : List Char → List Char × List Char
   | [] => ([], [])
   | c :: r => if '0' ≤ c ∧ c ≤ '9' then let (d, r') := takeDigits r; (c :: d, r') else ([], c :: r)
 
+/-- the exponent part `[eE][+-]digits` of strtod; 0 when there is none -/
+def atofExp (s : List Char) : Int :=
+  if upper (hd s) = 'E' then
+    let s1 := s.drop 1
+    let (eneg, s2) := if hd s1 = '-' then (true, s1.drop 1) else if hd s1 = '+' then (false, s1.drop 1) else (false, s1)
+    let ed := (takeDigits s2).1
+    if ed.isEmpty then 0 else (if eneg then -(Int.ofNat (digitsVal 10 ed)) else Int.ofNat (digitsVal 10 ed))
+  else 0
+
 def atof (s : List Char) : Float :=
   let s := skipWs s
-  let (neg, s) := if hd s = '-' then (true, s.drop 1) else if hd s = '+' then (false, s.drop 1) else (false, s)
-  let (ip, s) := takeDigits s
-  let (fp, s) := if hd s = '.' then takeDigits (s.drop 1) else ([], s)
-  let (e10, _) : Int × List Char :=
-    if upper (hd s) = 'E' then
-      let s1 := s.drop 1
-      let (eneg, s2) := if hd s1 = '-' then (true, s1.drop 1) else if hd s1 = '+' then (false, s1.drop 1) else (false, s1)
-      let (ed, s3) := takeDigits s2
-      if ed.isEmpty then (0, s) else ((if eneg then -(Int.ofNat (digitsVal 10 ed)) else Int.ofNat (digitsVal 10 ed)), s3)
-    else (0, s)
+  let neg := hd s = '-'
+  let s := if hd s = '-' ∨ hd s = '+' then s.drop 1 else s
+  let ip := (takeDigits s).1
+  let s := (takeDigits s).2
+  let fp := if hd s = '.' then (takeDigits (s.drop 1)).1 else []
+  let s := if hd s = '.' then (takeDigits (s.drop 1)).2 else s
+  let e10 := atofExp s
   let m := digitsVal 10 (ip ++ fp)
   let e := e10 - Int.ofNat fp.length
   let x : Float :=
